@@ -89,6 +89,22 @@ INFO = {
                      "stored trimmed)", ["C19"]),
     "C11-2": ("C11", "for_each (sync): two or more Message chunks of a Tcp connection cached before the listener call are "
                      "replayed newest first: the concatenation is no longer the sent stream", ["C11", "C15", "C03"]),
+    "C01-2": ("C01", "WebSocket: a Ping / Pong / Text message and a Binary message behind it arrive in one read from an "
+                     "independent peer, then silence: the loop stops at the control message and the Binary one is stranded", ["C01"]),
+    "C04-3": ("C04", "Disconnected is emitted before the resource is deregistered (check-then-act): inside the Disconnected "
+                     "callback is_ready() is Some(true), send() reaches the dead socket and remove() returns true; a remove() "
+                     "from another thread during the callback also returns true", ["C04", "C03"]),
+    "C10-3": ("C10", "FramedTcp send() first tries an unlocked vectored write and takes the lock only for the rest: with "
+                     "frames larger than the free socket buffer concurrent senders interleave", ["C10"]),
+    "C13-3": ("C13", "a reply larger than 1472 bytes from a UDP listener to a connected UDP socket: the connected socket's "
+                     "receive buffer is MAX_INTERNET_PAYLOAD_LEN, the payload arrives cut although send() said Sent", ["C13", "C12"]),
+    "C17-3": ("C17", "WebSocket frame limit lifted (max_frame_size None): after a correct handshake one frame header "
+                     "announcing 2^63-1 bytes makes tungstenite reserve that much: capacity-overflow panic of the network thread",
+              ["C17", "C13"]),
+    "C18-3": ("C18", "Tcp/FramedTcp with a keepalive configuration: the descriptor is duplicated for set_tcp_keepalive and the "
+                     "duplicate forgotten: one descriptor leaks per connection and the peer never sees the close", ["C18", "C04"]),
+    "C03-3": ("C03", "a connected Udp resource whose peer went away (ICMP bounce leaves ECONNREFUSED pending) and came back: "
+                     "the pending error is turned into Disconnected and the resource is deregistered", ["C03"]),
     "C19-1": ("C19", "SocketAddrV6 with non-zero flowinfo/scope_id converted to RemoteAddr: the fields are dropped", ["C19"]),
 }
 
